@@ -89,7 +89,11 @@ def call_real(case):
         if api == "_update_labels":
             lab = D._update_labels(sc, tb, f, desc)
         elif api == "_update_labels(Series)":
-            lab = D._update_labels(pd.Series(sc), pd.Series(tb), f, desc)
+            # a label COLUMN as the caller has it: booleans, 0/1 integers (int64 / int8 / uint8 by turns) or 0./1. floats
+            tcol = render_targets(t_in, case["enc"])
+            if case["enc"] == "int":
+                tcol = tcol.astype([np.int64, np.int8, np.uint8][(n + thr[0]) % 3])
+            lab = D._update_labels(pd.Series(sc), pd.Series(tcol), f, desc)
         else:
             df = pd.DataFrame({"t": tb, "s": np.arange(n), "p": ["P%d" % i for i in range(n)], "f": sc})
             ds = D.LinearPsmDataset(df, target_column="t", spectrum_columns="s", peptide_column="p",
